@@ -20,7 +20,15 @@ Enumerated:
       change before the reply), envelope-URI swaps (CALL/PUBLISH relayed under another URI
       with the same key; RESULT/ERROR ciphertext of another procedure / error URI;
       prefix layout: URI under another key), each x direction x layout x outer serializer;
-  (4) payloads the inner (JSON) serializer cannot carry, in all four directions.
+  (4) payloads the inner (JSON) serializer cannot carry, in all four directions;
+  (5) operation histories: ALL sequences up to depth 3 (quick) / 4 (thorough) over 10 operations
+      (publish by either session, calls in both directions, a self-call, a call of a
+      prefix-registered procedure, a publish to a prefix-subscribed topic, a call whose endpoint
+      raises, removing / re-installing a session's key) on ONE pair of sessions that both
+      originate and respond, x 8 keyring layouts (full / originator-only / responder-only on
+      either side, default / prefix / several deep prefixes).  Each operation is compared with
+      a capability model (who holds an originator / responder key for the governing URI) and
+      with the same operation on fresh sessions (history independence).
 
 Oracle: exact recovery of (uri, args, kwargs) at the receiving application code; every
 message whose governing URI is covered by a key has enc_algo='cryptobox', no clear
@@ -176,12 +184,18 @@ def main(ctx):
                 for d in DIRECTIONS:
                     jobs.append({"kind": "faults", "layout": layout, "dir": d, "ser": ser})
             jobs.append({"kind": "unenc", "ser": ser})
+            for layout in H_LAYOUTS:
+                parts = 5
+                for part in range(parts):
+                    jobs.append({"kind": "history", "layout": layout, "ser": ser, "part": part,
+                                 "parts": parts, "depth": 4 if tier == "thorough" else 3})
         # longest jobs first
         jobs.sort(key=lambda j: 0 if j["kind"] == "tamper" else 1)
         ctx.pmap({"fw": fw, "nvx": "0"}, "props.c20:job", jobs, chunksize=1)
     ctx.coverage["distinct_nontrivial"] = int(ctx.counters["encrypted_payload_examined"])
     ctx.coverage["fault_positions_x_masks"] = int(ctx.counters["tamper_execs"])
-    need = ["nonce_owned", "encrypted_payload_examined", "secrecy_messages_checked",
+    need = ["history_execs", "history_ok",
+            "nonce_owned", "encrypted_payload_examined", "secrecy_messages_checked",
             "clear_by_config", "tamper_execs", "tamper_detected", "after_fault_clean_ok",
             "handler_invoked_positive", "structural_detected", "fault:field", "fault:trunc-end"]
     for d in DIRECTIONS:
@@ -189,6 +203,8 @@ def main(ctx):
                  "wrongkey_detected:" + d, "unencryptable:" + d]
     for layout in LAYOUTS:
         need.append("layout:" + layout)
+    for layout in H_LAYOUTS:
+        need.append("history_layout:" + layout)
     for c in ("nonce", "mac", "body"):
         need.append("tamper_pos:" + c)
     for n in need:
@@ -798,6 +814,33 @@ def job(a):
                 col.add("C20|%s-%s|%s|%s" % (label, clause, d, layout),
                         "ser=%s fault=%r: %s" % (ser, fault, detail),
                         {"kind": "fault", "layout": layout, "dir": d, "ser": ser, "fault": fault})
+    elif kind == "history":
+        layout, ser = a["layout"], a["ser"]
+        fresh = {}
+        for oi, op in enumerate(H_OPS):
+            if op[0] in ("unset", "set"):
+                continue
+            obs, bad = Hist(layout, ser).apply(0, op)
+            fresh[oi] = _h_strip(obs)
+        for seq in h_sequences(a["depth"]):
+            if seq[0] % a["parts"] != a["part"] % a["parts"] and len(seq) > 1:
+                continue
+            if len(seq) == 1 and a["part"] != 0:
+                continue
+            h, out = run_history(layout, ser, seq, fresh)
+            col.evals += 1
+            st["history_execs"] += 1
+            st["history_ops"] += len(seq)
+            if not out:
+                st["history_ok"] += 1
+            for c, dsc, i in out:
+                op = H_OPS[seq[i]]
+                col.add("C20|history-%s|%s|%s|%s" % (c, op[0], layout,
+                                                      "first-op" if i == 0 else "later-op"),
+                        "ser=%s ops=%r failing op #%d %r: %s" % (
+                            ser, [H_OPS[j] for j in seq], i, op, dsc),
+                        {"kind": "history", "layout": layout, "ser": ser, "seq": seq})
+        st["history_layout:" + layout] += 1
     elif kind == "unenc":
         ser = a["ser"]
         for d in DIRECTIONS:
@@ -811,6 +854,261 @@ def job(a):
     else:
         raise ValueError(kind)
     return col.result()
+
+
+# ---------------------------------------------------------------------------
+# operation histories on one pair of sessions (both originate and respond)
+# ---------------------------------------------------------------------------
+H_T, H_PA, H_PB = "com.myapp.hist.topic", "com.myapp.hist.pa", "com.myapp.hist.pb"
+H_ERR = "com.myapp.hist.error"
+H_VAULT, H_VAULT_GET = "com.myapp.vault", "com.myapp.vault.get"      # prefix registration
+H_FEED, H_FEED_X = "com.myapp.feed", "com.myapp.feed.x"              # prefix subscription
+# (kind, acting session, URI)
+H_OPS = [("pub", "A", H_T), ("pub", "B", H_T), ("call", "A", H_PB), ("call", "B", H_PA),
+         ("call", "A", H_PA), ("call", "A", H_VAULT_GET), ("pub", "A", H_FEED_X),
+         ("err", "A", H_PB), ("unset", "A", None), ("set", "A", None)]
+# layout -> (capabilities of A, capabilities of B, key scope)
+H_LAYOUTS = {
+    "full/full": ("or", "or", "default"),
+    "orig/full": ("o", "or", "default"),
+    "full/resp": ("or", "r", "default"),
+    "orig/resp": ("o", "r", "default"),
+    "resp/orig": ("r", "o", "default"),
+    "full/full@prefix": ("or", "or", "com.myapp."),
+    "orig/full@prefix": ("o", "or", "com.myapp."),
+    "full/full@deep": ("or", "or", "deep"),
+}
+H_DEEP = ("com.myapp.vault.", "com.myapp.feed.", "com.myapp.hist.")
+
+
+def h_key(caps):
+    from autobahn.wamp.cryptobox import Key
+    if caps == "or":
+        return Key(originator_priv=priv(1), responder_priv=priv(2))
+    if caps == "o":
+        return Key(originator_priv=priv(1), responder_pub=pub(2))
+    return Key(originator_pub=pub(1), responder_priv=priv(2))
+
+
+def h_scopes(scope):
+    return [""] if scope == "default" else (list(H_DEEP) if scope == "deep" else [scope])
+
+
+def h_covered(scope, uri):
+    return any(uri.startswith(p) for p in h_scopes(scope))
+
+
+class Hist:
+    """one pair of real sessions; every operation is compared with the capability model"""
+
+    def __init__(self, layout, ser):
+        from harness import wamp_b2b as H
+        from autobahn.wamp import message as M
+        from autobahn.wamp.cryptobox import KeyRing
+        from autobahn.wamp.types import RegisterOptions, SubscribeOptions
+        own_nonce()
+        self.M = M
+        self.layout, self.ser = layout, ser
+        ca, cb, self.scope = H_LAYOUTS[layout]
+        self.caps = {"A": ca, "B": cb}
+        self.has_key = {"A": True, "B": True}          # model state: key currently installed
+        self.b = H.B2B(names=("A", "B"), ser=ser)
+        self.sess = self.b.sessions
+        self.rings = {}
+        for n in ("A", "B"):
+            k = KeyRing()
+            for sc in h_scopes(self.scope):
+                k.set_key(sc, h_key(self.caps[n]))
+            self.rings[n] = k
+            self.sess[n].set_payload_codec(k)
+        self.seen = {"A": [], "B": []}                 # application code invocations
+        self.reply = None
+        self.owner = {H_PA: "A", H_PB: "B", H_VAULT: "B"}
+        for uri, n, match in ((H_PA, "A", None), (H_PB, "B", None), (H_VAULT, "B", "prefix")):
+            r = self.b.do(self.sess[n].register(self._endpoint(n, uri), uri,
+                          options=RegisterOptions(details_arg="details", match=match)))
+            assert r and r[0][0] == "ok", r
+        for n in ("A", "B"):
+            for uri, match in ((H_T, None), (H_FEED, "prefix")):
+                r = self.b.do(self.sess[n].subscribe(self._handler(n, uri), uri,
+                              options=SubscribeOptions(details_arg="details", match=match)))
+                assert r and r[0][0] == "ok", r
+
+    def _endpoint(self, n, registered_as):
+        from autobahn.wamp.types import CallResult
+        from autobahn.wamp.exception import ApplicationError
+
+        def endpoint(*args, **kwargs):
+            details = kwargs.pop("details")
+            self.seen[n].append(("invoked", registered_as, details.procedure, norm(args),
+                                 norm(kwargs), details.enc_algo))
+            kind, a, k = self.reply
+            if kind == "raise":
+                raise ApplicationError(H_ERR, *a, **k)
+            return CallResult(*a, **k)
+        return endpoint
+
+    def _handler(self, n, subscribed_as):
+        def handler(*args, **kwargs):
+            details = kwargs.pop("details")
+            self.seen[n].append(("event", subscribed_as, details.topic, norm(args), norm(kwargs),
+                                 details.enc_algo))
+        return handler
+
+    # --- capability model -----------------------------------------------------
+    def can(self, n, role, uri):
+        return self.has_key[n] and role in self.caps[n] and h_covered(self.scope, uri)
+
+    def apply(self, i, op):
+        """-> (canonical observation, [(clause, detail)])"""
+        from autobahn.wamp.exception import ApplicationError
+        from autobahn.wamp.types import CallResult, PublishOptions
+        M = self.M
+        kind, x, uri = op
+        bad = []
+        if kind in ("unset", "set"):
+            for sc in h_scopes(self.scope):
+                self.rings[x].set_key(sc, None if kind == "unset" else h_key(self.caps[x]))
+            self.has_key[x] = kind == "set"
+            return (kind,), bad
+        y = "B" if x == "A" else "A"
+        args = [MARK + "-a%d" % i, i]
+        kwargs = {"k": MARK + "-k%d" % i}
+        rargs, rkwargs = [MARK + "-r%d" % i, i], {"r": MARK}
+        for n in ("A", "B"):
+            self.seen[n][:] = []
+        marks = {n: len(self.b.transports[n].sent) for n in ("A", "B")}
+        rmark = len(self.b.router_wire)
+        nesc = len(self.b.escapes)
+        if kind == "pub":
+            box = self.b.do(self.sess[x].publish(uri, *args, options=PublishOptions(acknowledge=True),
+                                                 **kwargs))
+        else:
+            self.reply = ("raise" if kind == "err" else "result", rargs, rkwargs)
+            box = self.b.do(self.sess[x].call(uri, *args, **kwargs))
+        # ---- messages of this operation
+        msgs = []
+        for n in ("A", "B"):
+            t = self.b.transports[n]
+            for m, w in list(zip(t.sent, t.wire))[marks[n]:]:
+                msgs.append(("sent-by-" + n, m, w))
+        for dst, cname, w in self.b.router_wire[rmark:]:
+            msgs.append(("relayed-to-" + dst, self.b.router_ser[dst].unserialize(w)[0], w))
+        msgs = [t for t in msgs if isinstance(t[1], (M.Call, M.Invocation, M.Yield, M.Result,
+                                                     M.Publish, M.Event, M.Error))]
+        # ---- expectations from the capability model
+        toks = tokens()
+        if len(self.b.escapes) > nesc:
+            bad.append(("escape", repr(self.b.escapes[nesc:])[:300]))
+        if kind == "pub":
+            enc = self.can(x, "o", uri)
+            want_enc = {M.Publish: enc, M.Event: enc}
+            delivered = (not enc) or self.can(y, "r", uri)
+            sub_as = H_T if uri == H_T else H_FEED
+            want_seen = {x: [], y: [("event", sub_as, uri, norm(args), norm(kwargs),
+                                     "cryptobox" if enc else None)] if delivered else []}
+            if len(box) != 1 or box[0][0] != "ok":
+                bad.append(("publish-ack", "publisher outcome %r" % (box,)))
+            outcome = "published"
+        else:
+            callee = self.owner[H_VAULT if uri == H_VAULT_GET else uri]
+            enc_call = self.can(x, "o", uri)
+            want_enc = {M.Call: enc_call, M.Invocation: enc_call}
+            want_seen = {"A": [], "B": []}
+            if enc_call and not self.can(callee, "r", uri):
+                outcome = "enc-error"
+            else:
+                reg_as = H_VAULT if uri == H_VAULT_GET else uri
+                want_seen[callee] = [("invoked", reg_as, uri, norm(args), norm(kwargs),
+                                      "cryptobox" if enc_call else None)]
+                ruri = H_ERR if kind == "err" else uri
+                # a result is encrypted iff the invocation was (the reply mirrors the request); an
+                # error whenever the callee holds a responder key for the error URI
+                enc_res = self.can(callee, "r", ruri) and (kind == "err" or enc_call)
+                if kind == "err":
+                    want_enc[M.Error] = enc_res
+                else:
+                    want_enc[M.Yield] = want_enc[M.Result] = enc_res
+                outcome = "enc-error" if (enc_res and not self.can(x, "o", ruri)) else \
+                    ("error" if kind == "err" else "result")
+            if len(box) != 1:
+                bad.append(("recovery", "call produced %d outcomes: %r" % (len(box), box)))
+            else:
+                k, v = box[0]
+                if outcome == "enc-error":
+                    if k != "err" or not isinstance(v, ApplicationError) or v.error not in ENC_ERRORS:
+                        bad.append(("no-explicit-error", "expected an encryption error, got %r" % (box,)))
+                elif outcome == "result":
+                    got = (norm(v.results), norm(v.kwresults)) if isinstance(v, CallResult) else v
+                    if k != "ok" or got != (rargs, rkwargs):
+                        bad.append(("recovery", "result %r expected %r" % (box, (rargs, rkwargs))))
+                else:
+                    if k != "err" or type(v) is not ApplicationError or \
+                            (v.error, norm(list(v.args)), norm(v.kwargs)) != (H_ERR, rargs, rkwargs):
+                        bad.append(("recovery", "error %r expected %r" % (box, (H_ERR, rargs, rkwargs))))
+        if self.seen != want_seen:
+            bad.append(("recovery" if sum(map(len, want_seen.values())) else "handler-invoked",
+                        "application code saw %r expected %r" % (self.seen, want_seen)))
+        wire = []
+        for where, m, w in msgs:
+            if isinstance(m, M.Error):
+                if m.request_type not in (M.Invocation.MESSAGE_TYPE, M.Call.MESSAGE_TYPE):
+                    continue
+                if m.error != H_ERR:
+                    wire.append((where, "Error", m.error, m.enc_algo))
+                    continue
+            cls = type(m)
+            cname = cls.__name__
+            if cls not in want_enc:
+                bad.append(("unexpected-message", "%s %s" % (where, cname)))
+                continue
+            leak = any(t in w for t in toks)
+            wire.append((where, cname, m.enc_algo, leak))
+            if want_enc[cls]:
+                if m.enc_algo != "cryptobox" or not isinstance(m.payload, bytes) or m.args or m.kwargs:
+                    bad.append(("secrecy", "%s %s: enc_algo=%r args=%r kwargs=%r although the sender "
+                                "holds a key for the governing URI" % (
+                                    where, cname, m.enc_algo, m.args, m.kwargs)))
+                elif leak:
+                    bad.append(("secrecy", "%s %s: marker occurs in the serialized message" % (
+                        where, cname)))
+            elif m.enc_algo is not None:
+                bad.append(("model", "%s %s encrypted although the sender holds no key" % (
+                    where, cname)))
+        obs = (kind, x, uri, outcome, tuple(wire),
+               repr(sorted((n, v) for n, v in self.seen.items())))
+        return obs, bad
+
+
+def run_history(layout, ser, seq, fresh):
+    """-> [(clause, detail, index)] ; fresh: {op index: observation on fresh sessions}"""
+    h = Hist(layout, ser)
+    out = []
+    for i, oi in enumerate(seq):
+        obs, bad = h.apply(i, H_OPS[oi])
+        for c, d in bad:
+            out.append((c, d, i))
+        if not bad and H_OPS[oi][0] not in ("unset", "set") and h.has_key == {"A": True, "B": True}:
+            # differential: same operation, same keyring contents, fresh sessions
+            want = fresh[oi]
+            got = _h_strip(obs)
+            if got != want:
+                out.append(("history-dependent", "after %r: %r; on fresh sessions: %r" % (
+                    [H_OPS[j][:2] for j in seq[:i]], got, want), i))
+    return h, out
+
+
+def _h_strip(obs):
+    """observation without the per-operation payload index"""
+    import re
+    return re.sub(r"-(a|k|r)\d+", r"-\1#", re.sub(r"(\[|, )\d+\]", r"\1#]", repr(obs)))
+
+
+def h_sequences(depth):
+    import itertools
+    for n in range(1, depth + 1):
+        for seq in itertools.product(range(len(H_OPS)), repeat=n):
+            yield list(seq)
 
 
 UNENCRYPTABLE = ["set", "uuid", "object"]
@@ -902,6 +1200,14 @@ def replay(a):
         sc, box, bad, applied = run_fault(a["layout"], a["dir"], a["ser"], a["fault"], st)
         if not bad and a["fault"]["type"] != "wrongkey":
             bad = after_fault_clean(sc, st)
+    elif kind == "history":
+        fresh = {}
+        for oi, op in enumerate(H_OPS):
+            if op[0] not in ("unset", "set"):
+                fresh[oi] = _h_strip(Hist(a["layout"], a["ser"]).apply(0, op)[0])
+        h, out = run_history(a["layout"], a["ser"], a["seq"], fresh)
+        return {"ops": [H_OPS[j] for j in a["seq"]], "escapes": repr(h.b.escapes)[:500],
+                "viol": [{"sig": "history-" + c, "desc": "op #%d: %s" % (i, d)} for c, d, i in out]}
     elif kind == "unenc":
         bad = run_unencryptable(a["dir"], a["ser"], a["value"], st)
         return {"viol": [{"sig": c, "desc": t} for c, t in bad], "stats": dict(st)}
@@ -927,7 +1233,11 @@ MANIFEST = {
             "foreign ciphertexts incl. across prefix keys - decide that application code is never "
             "invoked from the altered message and calls fail with an explicit encryption error, "
             "exactly once, nothing escaping onMessage, sessions usable afterwards. Payload values the "
-            "inner JSON serializer cannot carry must fail explicitly and never travel in clear.",
+            "inner JSON serializer cannot carry must fail explicitly and never travel in clear. Operation "
+            "histories: every sequence of up to 3 (thorough 4) operations from a 10-operation alphabet on "
+            "one pair of sessions acting in both roles (incl. prefix registrations/subscriptions, self-"
+            "calls, key removal/re-installation) x 8 asymmetric keyring layouts, each operation judged by "
+            "a capability model and against the same operation on fresh sessions.",
     "note": "Trusted: harness/wamp_b2b.py router (relays payload fields verbatim), PyNaCl. Keys are "
             "6 fixed pairs; payload/URI menus; replay of unmodified ciphertexts and reflection are "
             "outside the fault model; 'covered' follows the URI-scoped key lookup of the keyring.",
